@@ -50,6 +50,7 @@ fn main() {
             "C12" => props::c12::replay(case),
             "C13" => props::c13::replay(case),
             "C14" => props::c14::replay(case),
+            "C16" => props::c16::replay(case),
             _ => {
                 eprintln!("no replay for {id}");
                 2
@@ -61,6 +62,7 @@ fn main() {
         "C12" => props::c12::run(tier),
         "C13" => props::c13::run(tier),
         "C14" => props::c14::run(tier),
+        "C16" => props::c16::run(tier),
         _ => {
             eprintln!("unknown property {id}");
             2
